@@ -53,7 +53,7 @@ def main():
                         # nested chain W1 > W2 > W3 (+ a degenerate-narrow one)
                         w1 = (max(0, a - 2) / 64.0, (b + 2) / 64.0)
                         w2 = (a / 64.0, b / 64.0)
-                        mid = (a + b) // 2
+                        mid = min((a + b) // 2, max(0, int(e0max * 64) - 1))   # keep the narrow window inside [0,e0]
                         w3 = (mid / 64.0, (mid + 1) / 64.0)
                         ch = []
                         for w in (w1, w3):
@@ -72,8 +72,14 @@ def main():
     hist = {}
     accepted = 0
     samples = []
+    slow = []
     for r in recs:
         by[r["config"]] = r
+        if not r["accepted"] and "/w" in r["config"] and "draw cap" in (r.get("init_error") or ""):
+            # the initialisation shot already runs the rejection loop; a window in the far tail of the spectrum has a
+            # legitimately tiny acceptance: reported, not judged
+            slow.append(r["config"])
+            continue
         if not r["accepted"]:
             chk.violation(r["config"] + "|refused", "a configuration the reference rules accept is refused: %s" % r.get("init_error"),
                           {"config": r["config"], "error": r.get("init_error")})
@@ -122,6 +128,7 @@ def main():
         "histogram_Evis_minus_Q_keV_neutrinoless": {k: hist[k] for k in sorted(hist, key=lambda x: int(x))},
         "bins_beyond_1keV_within_tolerance": wide,
         "tolerance_keV": TOL * 1000,
+        "far_tail_windows_not_judged": slow,
     })
     chk.assumptions += ["Q, EK, Z and level energies are parsed from resources/code/decay0/decay0_2020-04-20.for at check time",
                         "for Bi214/Pb214/Po218/Rn222 the budget covers the particles before the first alpha of the follow-up chain",
